@@ -24,12 +24,12 @@ def gen_cases(tier, seed):
     rng = np.random.default_rng([seed, 17])
     q = tier == "quick"
     cases = []
-    classes = ["lowrank", "fullrank", "rankone", "scaled", "blocks", "eri"]
+    classes = ["lowrank", "fullrank", "rankone", "scaled", "blocks", "eri", "banded", "hubbard"]
     for cl in classes:
         for rep in range(10 if q else 600):
             cases.append({"type": "numpy", "class": cl, "s": int(rng.integers(1 << 30)),
                           "thr": float(10.0 ** (-int(rng.integers(3, 11)))), "group": "np"})
-    for cl in ["lowrank", "fullrank", "rankone", "eri", "scaled", "tiny", "scaledfull", "blocks", "hubbard"]:
+    for cl in ["lowrank", "fullrank", "rankone", "eri", "scaled", "tiny", "scaledfull", "blocks", "hubbard", "banded"]:
         for rep in range(6 if q else 250):
             cases.append({"type": "jax", "class": cl, "s": int(rng.integers(1 << 30)), "n": int(rng.integers(2, 9)),
                           "group": "jax-%d" % (rep % 8), "cost": 3})
@@ -69,6 +69,21 @@ def make_matrix(rng, cl, n=None):
         for g in range(norb):
             v[g * norb + g, g] = np.sqrt(u)
         r = norb
+    elif cl == "banded":
+        # lattice-model interaction matrices: many exact zeros, yet every site coupled to every other one indirectly (fill-in during
+        # elimination): on-site U plus nearest-neighbour V on a chain or ring, positive definite by diagonal dominance
+        n = n if n >= 3 else 3
+        u = float(rng.choice([2.0, 4.0, 8.0]))
+        vnn = float(rng.uniform(0.2, 0.9)) * u / 2.0
+        m = np.eye(n) * u
+        for i in range(n - 1):
+            m[i, i + 1] = m[i + 1, i] = vnn
+        if rng.random() < 0.5 and n > 3:
+            m[0, n - 1] = m[n - 1, 0] = vnn
+        w_, q_ = np.linalg.eigh(m)
+        v = q_ * np.sqrt(np.clip(w_, 0.0, None))
+        r = n
+        return m, v, r
     elif cl == "blocks":
         k = int(rng.integers(1, 4))
         m = int(rng.integers(1, 4))
